@@ -297,6 +297,13 @@ Definition run_words (ws : list string) : string :=
   | ["pgssl"] => "OK " ++ hex_of_bytes enc_pg_ssl_request
   | ["bannerenc"; proto; sw; c] =>
       show_opt (enc_banner (hex_or_empty proto) (hex_or_empty sw) (if String.eqb c "_" then None else Some (hex_or_empty c)))
+  | ["bannerline"; h] =>
+      match dec_banner (hex_or_empty h) with
+      | Some (proto, sw, c, n) =>
+          "OK " ++ hex_of_bytes (banner_prefix ++ proto ++ [b_dash] ++ sw ++ match c with Some c' => b_sp :: c' | None => [] end)%list
+               ++ " n=" ++ string_of_Z n
+      | None => "NONE"
+      end
   | ["bannerdec"; h] =>
       match dec_banner (hex_or_empty h) with
       | Some (proto, sw, c, n) =>
